@@ -619,6 +619,8 @@ class Machine:
                 return Tup(fs)
             if isinstance(cur, Clo):
                 fs = list(cur.caps)
+                while len(fs) <= i:
+                    fs.append(Atom('uninit'))
                 fs[i] = self.update(st, fs[i], path[1:], val)
                 return Clo(cur.key, fs)
             if cur is None or isinstance(cur, Atom):
@@ -892,7 +894,32 @@ class Machine:
         if isinstance(a, Cond) and isinstance(b, Int) and b.is_const() and op in ('Eq', 'Ne'):
             want = (b.c != 0) == (op == 'Eq')
             return a if want else Cond(a.sym, iv_sub(st.ranges[a.sym], a.tset))
+        if isinstance(a, Int) and isinstance(b, Int):
+            kn = st.extra.get('known')
+            if kn:
+                # consequences of comparisons of the same two values already decided on this path
+                ra, rb = repr(a), repr(b)
+                facts = []   # list of (relation that holds) among '<', '<=', '>', '>=', '==', '!='
+                for o2, rel1, rel0 in (('Lt', '<', '>='), ('Le', '<=', '>'), ('Gt', '>', '<='), ('Ge', '>=', '<'), ('Eq', '==', '!='), ('Ne', '!=', '==')):
+                    v = kn.get('%s(%s,%s)' % (o2, ra, rb))
+                    if v is not None:
+                        facts.append(rel1 if v else rel0)
+                    v = kn.get('%s(%s,%s)' % (o2, rb, ra))
+                    if v is not None:
+                        r_ = rel1 if v else rel0
+                        facts.append({'<': '>', '<=': '>=', '>': '<', '>=': '<=', '==': '==', '!=': '!='}[r_])
+                want = {'Lt': '<', 'Le': '<=', 'Gt': '>', 'Ge': '>=', 'Eq': '==', 'Ne': '!='}[op]
+                implies = {'<': {'<', '<=', '!='}, '<=': {'<='}, '>': {'>', '>=', '!='}, '>=': {'>='}, '==': {'==', '<=', '>='}, '!=': {'!='}}
+                refutes = {'<': {'>', '>=', '=='}, '<=': {'>'}, '>': {'<', '<=', '=='}, '>=': {'<'}, '==': {'!=', '<', '>'}, '!=': {'=='}}
+                for fct in facts:
+                    if want in implies[fct]:
+                        return Int.const(1)
+                    if want in refutes[fct]:
+                        return Int.const(0)
         st.flags.add('imprecise:compare')
+        if isinstance(a, Int) and isinstance(b, Int):
+            # relation between two different symbols: a named truth value (branches on it stay consistent via `known`)
+            return Atom('%s(%r,%r)' % (op, a, b), {'s': 'bool', 'k': 'bool'})
         return Atom(fresh('cmp'), {'s': 'bool', 'k': 'bool'})
 
     def bitop(self, st, op, a, b, tys):
@@ -1447,6 +1474,16 @@ class Machine:
             r = handler(self, cfg, f, args, t)
             if r is not NotImplemented:
                 return self.apply_prim_result(cfg, r, dest, ret_bb, t)
+        if handler is None and f.get('rkrate') not in ('minicbor', 'minicbor_serde', 'minicbor_io'):
+            from .prims import PATTERN_PRIMS
+            for n in names:
+                if not n:
+                    continue
+                for rx, h in PATTERN_PRIMS:
+                    if rx.match(n):
+                        r = h(self, cfg, f, args, t)
+                        if r is not NotImplemented:
+                            return self.apply_prim_result(cfg, r, dest, ret_bb, t)
         key = f.get('rkey')
         inst = self.prog.get(key) if key else None
         if inst is not None and f.get('rkind', 'item') == 'item':
